@@ -49,22 +49,36 @@ static Val project(const Sch& ws, const Val& wv, const Sch& rs) {
 // canonical form independent of schema (maps sorted) for cross-schema comparison
 static Val canon_by(const Sch& s, Val v) { canon(s, v); return v; }
 
-// value of writer version `w` for the assignment mask (bit i = i-th active entry non-empty)
-static Val gen_table_val(const Ver& w, uint64_t mask, Rng& r) {
-  Val v; Gen g(r); int bit = 0;
+// value of writer version `w` for an assignment (Mask bit i = i-th active entry non-empty; any number of entries, not only the 64 of a machine word)
+struct Mask {
+  std::vector<uint8_t> on;
+  static Mask from_u64(int na, uint64_t m) { Mask k; k.on.resize((size_t)na); for (int i = 0; i < na; i++) k.on[(size_t)i] = i < 64 ? (uint8_t)((m >> i) & 1) : (uint8_t)((m >> (i % 64)) & 1); return k; }
+  static Mask all(int na, uint8_t v = 1) { Mask k; k.on.assign((size_t)na, v); return k; }
+  static Mask random(int na, Rng& r) { Mask k; k.on.resize((size_t)na); unsigned dens = 1 + (unsigned)r.below(7); for (auto& b : k.on) b = r.below(8) < dens; return k; }
+  // the i-th assignment of a sweep: in order for small tables; for wide ones all / none / only the entries beyond the 32nd / 64th / exactly the 65th / random
+  static Mask sweep(int na, uint64_t ci, uint64_t half, Rng& r) {
+    if (na < 63) { uint64_t n = 1ull << na; return from_u64(na, ci < n && ci < half ? ci : r.below(n)); }
+    Mask k = all(na, 0);
+    switch (ci % 8) { case 0: return all(na); case 1: return k; case 2: for (int i = 64; i < na; i++) k.on[(size_t)i] = 1; return k; case 3: k.on[64] = 1; return k; case 4: for (int i = 32; i < na; i++) k.on[(size_t)i] = (uint8_t)(i % 2); return k;
+                      case 5: k.on[0] = 1; k.on[(size_t)na - 1] = 1; return k; default: return random(na, r); }
+  }
+  std::string str() const { std::string t; for (auto b : on) t += b ? '1' : '0'; return t; }
+};
+static Val gen_table_val(const Ver& w, const Mask& mask, Rng& r) {
+  Val v; Gen g(r); size_t bit = 0;
   for (size_t i = 0; i < w.pv.entries.size(); i++) {
     Val e; const PoolEntry& pe = w.pv.entries[i];
-    if (pe.active) { if ((mask >> bit) & 1) { e.u = 1; e.kids.push_back(g.gen(pe.constraint(), 1)); } bit++; }
+    if (pe.active) { if (bit < mask.on.size() && mask.on[bit]) { e.u = 1; e.kids.push_back(g.gen(pe.constraint(), 1)); } bit++; }
     v.kids.push_back(e);
   }
   return v;
 }
 static int active_count(const Ver& w) { int n = 0; for (auto& e : w.pv.entries) n += e.active; return n; }
-static Val gen_ctx_val(const Ver& w, int c, uint64_t mask, Rng& r) {
+static Val gen_ctx_val(const Ver& w, int c, const Mask& mask, Rng& r) {
   switch (c) {
     case 0: return gen_table_val(w, mask, r);
     case 1: { Val v; v.kids.push_back(gen_table_val(w, mask, r)); Val x; x.u = (uint32_t)r.next(); v.kids.push_back(x); return v; }
-    case 2: { Val v; size_t n = r.below(4); for (size_t i = 0; i < n; i++) v.kids.push_back(gen_table_val(w, i == 0 ? mask : r.next(), r)); return v; }
+    case 2: { Val v; size_t n = r.below(4); for (size_t i = 0; i < n; i++) v.kids.push_back(gen_table_val(w, i == 0 ? mask : Mask::random((int)mask.on.size(), r), r)); return v; }
     default: { Val v; Val e0; e0.u = r.below(4) != 0; if (e0.u) e0.kids.push_back(gen_table_val(w, mask, r)); Val e1; e1.u = r.below(2); if (e1.u) { Val x; x.u = (uint16_t)r.next(); e1.kids.push_back(x); } v.kids = {e0, e1}; return v; }
   }
 }
@@ -85,16 +99,16 @@ static void run_c07() {
     pair_id++;
     std::string pname = W.pv.name + "->" + R.pv.name;
     if (!args().only_type.empty() && args().only_type != pname) continue;
-    int na = active_count(W); uint64_t nmask = 1ull << na;
+    int na = active_count(W);
     int per_pair = th ? 160 : 48;
     for (int ci = 0; ci < per_pair; ci++) {
       if (args().only_case >= 0 ? args().only_case != ci : !mine(pair_id * 31 + (uint64_t)ci)) continue;
       Rng r = case_rng(pname, (uint64_t)ci, 7);
-      uint64_t mask = (uint64_t)ci < nmask && ci < per_pair / 2 ? (uint64_t)ci : r.below(nmask);      // low case indices sweep the assignments in order
+      Mask mask = Mask::sweep(na, (uint64_t)ci, (uint64_t)per_pair / 2, r);      // low case indices sweep the assignments in order
       int c = ci % 4;
       const Ctx& wc = ctx_of(W, c); const Ctx& rc = ctx_of(R, c);
       Val wv = gen_ctx_val(W, c, mask, r), wv0; Bytes bytes;
-      std::string cd = case_desc(pname, ci, kCtxName[c], J().u("mask", mask).str());
+      std::string cd = case_desc(pname, ci, kCtxName[c], J().s("mask", mask.str()).str());
       set_current("%s", cd.c_str());
       if (!write_ctx(wc, wv, &bytes, &wv0)) { rep().violation("C07:write-failed", pname + ": writing the table failed", cd); continue; }
       Val expect = canon_by(rc.sch, project(wc.sch, wv0, rc.sch));
@@ -107,7 +121,7 @@ static void run_c07() {
         Source src; src.init(rk, stream.data(), stream.size(), r_is_bounded(rk) ? stream.size() + (with_sentinel ? 1 : 0) : SIZE_MAX, 1 + (unsigned)(ci % 6));
         void* o = rc.t->create();
         // reading into an object that already holds other entries must not keep them (fresh objects in half of the cases)
-        if (ci & 1) { Rng r2(r.next()); Val pv = gen_ctx_val(R, c, r2.next(), r2); rc.t->from_val(pv, o); }
+        if (ci & 1) { Rng r2(r.next()); Val pv = gen_ctx_val(R, c, Mask::random(active_count(R), r2), r2); rc.t->from_val(pv, o); }
         auto st = rc.t->read(src, o);
         rep().count("c07_cross_version_reads");
         std::string det = J().s("reader", rname(rk)).s("bytes", hex(bytes, 120)).s("context", kCtxName[c]).str();
@@ -126,7 +140,7 @@ static void run_c07() {
         }
         rc.t->destroy(o);
       }
-      if (rep().want_sample("pair", 3) && wi != ri) rep().sample("pair", J().s("writer_version", wc.t->name).s("reader_version", rc.t->name).s("context", kCtxName[c]).u("assignment_mask", mask).s("bytes", hex(bytes, 48)).str(), 3);
+      if (rep().want_sample("pair", 3) && wi != ri) rep().sample("pair", J().s("writer_version", wc.t->name).s("reader_version", rc.t->name).s("context", kCtxName[c]).s("assignment_mask", mask.str()).s("bytes", hex(bytes, 48)).str(), 3);
       clear_current();
     }
   }
@@ -191,7 +205,7 @@ static void table_mutations(const Enc& e, Rng& r, std::vector<TMut>& out) {
     }
     // ---- declared sizes far beyond the data: 2^64-1, 2^64-2, 2^64-value size, 2^63, 2^32 (a limit check that wraps accepts these)
     for (size_t i = 0; i < k && i < 3; i++) { const EntrySpan& s = g.ents[i]; Bytes val(e.out.begin() + s.val_off, e.out.begin() + s.end_off);
-      for (uint64_t huge : {~0ull, ~0ull - 1, 0ull - (uint64_t)val.size(), 0ull - (uint64_t)(s.val_off), 1ull << 63, 1ull << 32}) { std::vector<Bytes> pe = eb; pe[i] = make_entry(s.id, val, huge); out.push_back({rebuild(e, g, pe, k), fmt("entry %zu declared size %" PRIu64 " (bytes kept)", i, huge), false}); } }
+      for (uint64_t huge : {~0ull, ~0ull - 1, 0ull - (uint64_t)val.size(), 0ull - (uint64_t)(s.val_off), 1ull << 63, 1ull << 32, (1ull << 32) + (uint64_t)val.size(), (1ull << 16) + (uint64_t)val.size(), (1ull << 48) + (uint64_t)val.size() + 1}) { /* a narrow limit counter sees only the low bits: 2^k + real size looks fine to it */ std::vector<Bytes> pe = eb; pe[i] = make_entry(s.id, val, huge); out.push_back({rebuild(e, g, pe, k), fmt("entry %zu declared size %" PRIu64 " (bytes kept)", i, huge), false}); } }
     // ---- entry count +-1
     out.push_back({rebuild(e, g, eb, k + 1), "entry count + 1", false});
     if (k) out.push_back({rebuild(e, g, eb, k - 1), "entry count - 1", false});
@@ -219,7 +233,7 @@ static void run_c08() {
     for (int ci = 0; ci < per_pair; ci++) {
       if (args().only_case >= 0 ? args().only_case != ci : !mine(pair_id * 17 + (uint64_t)ci)) continue;
       Rng r = case_rng(pname, (uint64_t)ci, 8);
-      int na = active_count(W); uint64_t mask = ci == 0 ? (1ull << na) - 1 : r.below(1ull << na);
+      int na = active_count(W); Mask mask = ci == 0 ? Mask::all(na) : Mask::random(na, r);
       int c = ci % 4;
       const Ctx& wc = ctx_of(W, c); const Ctx& rc = ctx_of(R, c);
       Val wv = gen_ctx_val(W, c, mask, r), wv0; Bytes bytes;
